@@ -531,3 +531,8 @@ PROPS['C18']['required_tags'] += ['bitset-chained-mutators', 'array-concat-lvalu
 PROPS['C19']['required_tags'] += ['logger-256', 'logger-257', 'logger-65536', 'logger-65537']
 PROPS['C20']['required_tags'] += ['printf-all-positional-exact-args', 'cmdline-generated-option-table']
 PROPS['C07']['required_tags'] += ['toggle-small-node-pool', 'reinsert-into-empty-tree']
+
+# ---- classes that exist only for today's object layout are waived when the harness reports another layout
+PROPS['C12']['waivers'] = {'ticket-counters-near-wrap': 'ticket-layout-not-two-32-bit-counters'}
+PROPS['C08']['required_tags'] += ['drain-and-refill']
+PROPS['C08']['waivers'] = {t: 'hook-links-not-walkable' for t in ('remove-root', 'remove-first-child', 'remove-middle-sibling', 'remove-last-sibling', 'remove-only-child', 'remove-leaf', 'pop-odd-children', 'pop-even-children')}
